@@ -3,6 +3,7 @@ package plugin
 // Shared helpers of the /verif harnesses in package plugin (C13-C16).
 
 import (
+	"slices"
 	"errors"
 	"fmt"
 	"net/netip"
@@ -84,3 +85,27 @@ func vkOptsString(opts []ndp.Option) string {
 }
 
 func vkMustPrefix(s string) netip.Prefix { return netip.MustParsePrefix(s) }
+
+// vkReflag returns the same addresses in the same order with other kernel flags (duplicate address detection
+// finishing, an address turning temporary or deprecated): the listing "has not changed" if one looks at the
+// addresses only.
+func vkReflag(list []system.IP, mode int) []system.IP {
+	out := slices.Clone(list)
+	for i := range out {
+		switch mode {
+		case 0:
+			out[i].Tentative = !out[i].Tentative
+		case 1:
+			if i%2 == 0 {
+				out[i].Temporary = !out[i].Temporary
+			}
+		case 2:
+			out[i].Deprecated = true
+		case 3:
+			out[i].Tentative, out[i].Temporary, out[i].Deprecated = false, false, false
+		default:
+			out[i].StablePrivacy, out[i].ManageTemporaryAddresses = !out[i].StablePrivacy, false
+		}
+	}
+	return out
+}
